@@ -9,7 +9,8 @@ response sequence with at most `max` responses per key, `1 ≤ min ≤ max`:
   quorum_fires_at_min, quorum_once_per_key, quorum_reports_exactly, batching_independent,
   errors_passed_through                                              (collect_quorum)
   quorumW_fires_at_min, quorumW_reports_once,
-  quorumW_values_batching_independent_refuted                        (collect_quorum_with_response)
+  quorumW_values_batching_independent_refuted, quorumW_min_eq_max_values,
+  quorumW_min_eq_max_batching_independent                            (collect_quorum_with_response)
   join_tick_output, join_responses_once                              (join_responses)
 -/
 import HvNet.Model.Quorum
@@ -737,4 +738,69 @@ example : runJ ([] : List (Nat × Nat)) [(([] : List (Nat × Nat)), [(1, 100), (
 example : Timely (M := Nat) (V := Nat) [] [([], [(1, 100), (2, 200)]), ([(2, 7)], []), ([(1, 5)], [])] := by
   simp [Timely]
 end Examples
+section MinEqMax
+variable {κ V E : Type} [DecidableEq κ]
+
+theorem aux_specW_min_eq_max (min : Nat) (h1 : 1 ≤ min) (bs : List (List (Resp κ V E)))
+    (hist : List (Resp κ V E)) (os : List (List (κ × V))) (h : SpecW min hist bs os)
+    (H : ∀ k, total (hist ++ bs.flatten) k ≤ min) (k : κ) :
+    os.flatten.filter (fun p => p.1 = k) =
+      if succ hist k < min ∧ min ≤ succ (hist ++ bs.flatten) k
+      then (proj (hist ++ bs.flatten) k).filterMap okVal else [] := by
+  induction bs generalizing hist os with
+  | nil =>
+    cases os with
+    | nil =>
+      simp only [List.flatten_nil, List.filter_nil, List.append_nil]
+      rw [if_neg (by omega)]
+    | cons o os => simp [SpecW] at h
+  | cons b bs ih =>
+    cases os with
+    | nil => simp [SpecW] at h
+    | cons o os =>
+      simp only [SpecW] at h
+      obtain ⟨ho, hrest⟩ := h
+      have Hk := H k
+      simp only [List.flatten_cons, aux_total_append] at Hk
+      have ih' := ih (hist ++ b) os hrest (by intro k'; have := H k'; simpa [List.append_assoc] using this)
+      simp only [List.flatten_cons, List.filter_append, ho k, ih']
+      have hs1 := aux_succ_le_total hist k
+      have hs2 := aux_succ_le_total b k
+      have hs3 := aux_succ_le_total bs.flatten k
+      by_cases hf : firesAt min hist b k
+      · have hf' := hf
+        simp only [firesAt, aux_succ_append] at hf'
+        have hrestnil : total bs.flatten k = 0 := by omega
+        have hp : proj bs.flatten k = [] := aux_proj_nil_of_total _ _ hrestnil
+        rw [if_pos hf, if_neg (by simp only [aux_succ_append]; omega),
+          if_pos (by simp only [aux_succ_append]; omega)]
+        simp [← List.append_assoc, aux_proj_append, hp]
+      · rw [if_neg hf]
+        simp only [firesAt, aux_succ_append] at hf
+        simp only [List.nil_append, ← List.append_assoc]
+        by_cases c : succ (hist ++ b) k < min ∧ min ≤ succ (hist ++ b ++ bs.flatten) k
+        · rw [if_pos c, if_pos]
+          simp only [aux_succ_append] at c ⊢; omega
+        · rw [if_neg c, if_neg]
+          simp only [aux_succ_append] at c ⊢; omega
+
+/-- With `min = max` the emitted values are batching independent too: over the whole run the
+values of key `k` are exactly its successful responses (in arrival order) if there are `min` of
+them, and nothing otherwise. -/
+theorem quorumW_min_eq_max_values (min : Nat) (batches : List (List (Resp κ V E)))
+    (h : QuorumInput min min batches) (k : κ) :
+    (runW min min {} batches).flatten.filter (fun p => p.1 = k) =
+      if min ≤ succ batches.flatten k then (proj batches.flatten k).filterMap okVal else [] := by
+  have := aux_specW_min_eq_max min h.min_pos batches [] _ (quorumW_fires_at_min min min batches h)
+    (by simpa using h.at_most_max) k
+  have h1 := h.min_pos
+  simpa [succ, show 0 < min from h1] using this
+
+theorem quorumW_min_eq_max_batching_independent (min : Nat) (b₁ b₂ : List (List (Resp κ V E)))
+    (h₁ : QuorumInput min min b₁) (h₂ : QuorumInput min min b₂) (e : b₁.flatten = b₂.flatten) (k : κ) :
+    (runW min min {} b₁).flatten.filter (fun p => p.1 = k) =
+      (runW min min {} b₂).flatten.filter (fun p => p.1 = k) := by
+  rw [quorumW_min_eq_max_values min b₁ h₁ k, quorumW_min_eq_max_values min b₂ h₂ k, e]
+
+end MinEqMax
 end HvNet.Quorum
